@@ -34,9 +34,21 @@ WithMark(x) == SubSeq(x, 1, Half(x)) \o MARK2 \o SubSeq(x, Half(x) + 1, Len(x))
 NoMark(x) == Find(x, MARK2, 0) < 0 /\ (x = <<>> \/ (x[Len(x)] # 35 /\ x[1] # 64)) /\ ~(Half(x) > 0 /\ x[Half(x)] = 35) /\ ~(Half(x) < Len(x) /\ x[Half(x) + 1] = 64)
 Ascii(x) == \A i \in 1..Len(x) : x[i] < 128
 
+\* base64 text broken into lines of w characters (the last one shorter), each but the last followed by the line end nl
+WrapLines(t, w, nl) == LET n == (Len(t) + w - 1) \div w IN
+                       Concat([i \in 1..n |-> SubSeq(t, (i - 1) * w + 1, IF i * w < Len(t) THEN i * w ELSE Len(t)) \o (IF i < n THEN nl ELSE <<>>)])
+\* ... is found as one unit when the last line keeps at least two characters before the padding
+WrapDom(t, w) == LET last == IF Len(t) % w = 0 THEN w ELSE Len(t) % w
+                     pad == Cardinality({i \in 1..Len(t) : t[i] = 61})
+                 IN BareB64Accept(t) /\ last - pad >= 2
+B64Wrapped(x, w, nl) == [enc |-> WrapLines(B64Encode(x), w, nl), ty |-> "", obf |-> "encoding.base64", val |-> x, off |-> 0, dom |-> WrapDom(B64Encode(x), w)]
+
 \* [enc: the encoded text, ty, obf, val: the node's value, off: where x sits in val, dom]
 Layer(kind, x) ==
-  CASE kind = "b64" -> [enc |-> B64Encode(x), ty |-> "", obf |-> "encoding.base64", val |-> x, off |-> 0, dom |-> BareB64Accept(B64Encode(x))]
+  CASE kind = "b64w30" -> B64Wrapped(x, 30, <<13, 10>>)
+    [] kind = "b64w50" -> B64Wrapped(x, 50, <<10>>)
+    [] kind = "b64w76" -> B64Wrapped(x, 76, <<13, 10>>)
+    [] kind = "b64" -> [enc |-> B64Encode(x), ty |-> "", obf |-> "encoding.base64", val |-> x, off |-> 0, dom |-> BareB64Accept(B64Encode(x))]
     [] kind = "atob" -> [enc |-> Call(ATOB, SQ, B64Encode(x)), ty |-> "javascript.string", obf |-> "encoding.base64", val |-> x, off |-> 0, dom |-> x # <<>>]
     [] kind = "Base64Decode" -> [enc |-> Call(B64DEC, DQ, B64Encode(x)), ty |-> "vba.string", obf |-> "encoding.base64", val |-> x, off |-> 0, dom |-> x # <<>>]
     [] kind = "FromBase64String" -> [enc |-> Call(FROMB64, SQ, B64Encode(x)), ty |-> "powershell.bytes", obf |-> "encoding.base64", val |-> x, off |-> 0, dom |-> x # <<>>]
